@@ -574,3 +574,10 @@ package restful
 // 406/415: collecting the available representations
 //@ loop 7 invariant fresh: fresh(available)
 //@ loop 7 invariant previous: forall(0, len(previous), func(j int) bool { return ptrInto(previous[j], routes) })
+
+// ---------------------------------------------------------------------------
+// guarded-by declarations (C12): every access to these fields needs the lock
+// (write: write-held; read: read- or write-held), unless the object was
+// allocated by the current activation.
+//@ guarded Container: webServices ServeMux isRegisteredOnRoot by webServicesLock
+//@ guarded WebService: routes by routesLock when dynamicRoutes
